@@ -17,7 +17,7 @@ package sync
 // one op = one Process call with a batch of 1..M responses.  Response alphabet of a tree = every
 // contiguous segment of every root-to-leaf path (ascending or descending request) plus the
 // deviation-1 neighbourhood (at most one deviated response per history): forged stated Hash (to
-// garbage or to the hash of any other block), re-linked parent, wrong number, missing header,
+// garbage or to the hash of any other block), genuine stated Hash over another block's header, re-linked parent, wrong number, missing header,
 // missing body, a "glued" pair (uncle with the stated hash of the parent), an empty response and an
 // uncompleted task.  Trees: every rooted tree shape with up to N nodes (genesis = root).
 //
@@ -133,7 +133,7 @@ func (t *c32Tree) path(top, bottom int) []int {
 // ---------------------------------------------------------------- response specs
 
 type c32Dev struct {
-	kind string // "", forge, relink, renumber, nohdr, nobody, glue, empty, incomplete
+	kind string // "", forge, swaphdr, relink, renumber, nohdr, nobody, glue, empty, incomplete
 	pos  int
 	arg  int // node index whose hash is used, -1 = garbage; for renumber: +1 / -1
 }
@@ -239,6 +239,9 @@ func (t *c32Tree) materialise(s c32Spec, who peer.ID) *c32Resp {
 		r.bds[s.dev.pos].Hash = t.hashArg(s.dev.arg)
 	case "glue":
 		r.bds[0].Hash = t.hdr[s.bottom].ParentHash
+	case "swaphdr":
+		// the stated hash stays the genuine one (so the stated hashes still chain), the header is another block's
+		r.bds[s.dev.pos].Header = t.hdr[s.dev.arg]
 	case "relink":
 		old := r.bds[s.dev.pos].Header
 		h := types.NewHeader(t.hashArg(s.dev.arg), old.StateRoot, old.ExtrinsicsRoot, old.Number, old.Digest)
@@ -343,6 +346,10 @@ func (t *c32Tree) deviatedSpecs() []c32Spec {
 					}
 					if a != t.parent[v] && a != v {
 						base.dev = c32Dev{"relink", pos, a}
+						out = append(out, base)
+					}
+					if a > 0 && a != v {
+						base.dev = c32Dev{"swaphdr", pos, a}
 						out = append(out, base)
 					}
 				}
